@@ -812,6 +812,12 @@ class C07(RunSpec):
 
     def make_case(self, seed, idx, tier):
         d = super().make_case(seed, idx, tier)
+        if idx % 10 == 2 and d.get("kind") == "tree" and not d.get("reuse"):
+            # the tree is built with the library's default options / default class mapping after *another* default-built configuration had its
+            # options and its class mapping adjusted in place
+            d["options"] = {}
+            d["after_someone_elses_config"] = True
+            d["entry"] = "tree"
         if idx % 10 == 1 and d.get("kind") == "tree" and any(lv["engine"] in SEA_FAMILY + ["mwea"] for lv in d["levels"]):
             d["override_builtin_ea"] = True  # config_class_to_deme_class = {EALevelConfig: <user's EADeme subclass>}
             d["entry"] = "tree"
@@ -857,6 +863,7 @@ class C07(RunSpec):
             ("C07.three_level_tree_two_sprouting_parents", 1, "3-level tree with >=2 sprouting parents on level 1"),
             ("C07.round_creating_2_children", 1, "round creating >=2 children"),
             ("C07.deme_of_a_level_whose_built_in_config_class_is_mapped_to_a_user_deme_class", 5, "demes of levels whose built-in config class the user mapped to a deme class of their own"),
+            ("runs_after_another_default_built_config_was_adjusted_in_place", 5, "trees built with default options / class mapping after another default-built config was adjusted in place"),
             ("C07.custom_deme_class_seen.custom", 1, "custom deme class registered for a new config class"),
             ("C07.custom_deme_class_seen.custom_ea", 1, "custom deme class registered for a new config class derived from a built-in one"),
             ("C07.custom_deme_class_seen.custom_ea2", 1, "custom deme class registered for a config class derived from another registered custom config class"),
@@ -1179,6 +1186,11 @@ class C18(RunSpec):
             d["sprout"]["far"] = 1e-9
         if d["gsc"]["k"] == "melimit":
             d["gsc"]["n"] = max(d["gsc"]["n"], 8)
+        if idx % 10 == 9 and d.get("kind") == "tree" and not d.get("reuse") and not d.get("soak"):
+            # hibernation left at its default (off) in a tree built after another default-built configuration switched it on for itself
+            d["options"] = {}
+            d["after_someone_elses_config"] = True
+            d["entry"] = "tree"
         if idx % 10 == 4 and d.get("kind") == "tree" and not d.get("reuse") and not d.get("soak"):
             # rounds driven by hand through the public run_metaepoch() / run_sprout(), the tree's metaepoch counter left where it is
             # (every second case advances it the way run_step() would): the hibernation rule is about rounds, not about the counter
@@ -1265,6 +1277,7 @@ class C18(RunSpec):
 
     def floors(self, tier):
         return [
+            ("runs_after_another_default_built_config_was_adjusted_in_place", 5, "trees built with default options after another default-built config switched hibernation on in place"),
             ("C18.flag_rule_checked_in_a_round_driven_by_hand", 20, "hibernation flag rule checked after a round driven by hand (counter advanced as run_step() would)"),
             ("C18.flag_rule_checked_in_a_round_driven_by_hand_with_the_counter_left_alone", 20, "... and with the tree's metaepoch counter left where it is"),
             ("C18.sleeping_parent_with_running_one_individual_child_on_shared_problem", 3, "sleeping parent whose one-individual child (same problem object) is running"),
@@ -1367,6 +1380,7 @@ class C17(DirectSpec):
     def floors(self, tier):
         fl = [(f"cell.{m}.{b}.{pc}", 1, "cell populated") for m in ("clip", "reflect", "toroidal") for b in gen.BOX_CLASSES for pc in C17_POINT_CLASSES]
         fl += [(f"cell.{m}.{b}.absolute-magnitude", 1, "input of a magnitude unrelated to the box") for m in ("reflect", "toroidal") for b in ("xscale", "tiny", "decimal")]
+        fl += [("integer_typed_bounds_arrays", 50, "calls with the box given as an integer-typed array (int8 ... int64, uint8)")]
         fl += [("results_re-read_after_later_calls", 100, "results looked at again after later calls of apply_bounds")]
         fl += [(f"cell.{m}.huge.{pc}", 1, "box whose range is finite while twice the range is not") for m in ("reflect", "toroidal") for pc in ("slightly-outside", "ulp-outside-lower", "ulp-outside-upper")]
         return fl
